@@ -1,1 +1,93 @@
-(* placeholder *) From V Require Import base.Prelude.
+(** C17 - Any sequence of public operations keeps an ACL consistent with a reference model.
+
+    The concrete model is coq/model/Ops.v (state = flags, grouping, entries with identifier,
+    note and numbers; 16 operations), tied to the implementation by the history correspondence
+    (text, flags, grouping and identifiers compared after every step).  The reference is the
+    rule list and its first-match decision (spec/AceSem.v, spec/AclSem.v).
+
+    - Meaning-preserving operations (platform, port_nr, protocol_nr, type, resequence, ungroup,
+      copy, export/import, re-parse, ungroup_ports): each step carries a certificate that Coq
+      evaluates on the model's states ([step_cert], part of every observation of the
+      correspondence); [C17_neutral_history] lifts it to histories of ANY length: the final
+      ACL gives every packet the decision the initial ACL gave.  resequence and ungroup need no
+      certificate (proved outright).  Stated for flat ACLs; on a grouped ACL every assignment
+      re-groups, which may move entries between blocks (the reference of group()).
+    - Order-changing operations are characterised exactly: reverse, sort (a permutation of the
+      blocks, ordered by number; modelled for pairwise distinct numbers), pop, insert.
+    - group() depends on the rule list only, not on identifiers, notes or the history
+      ([C17_group_erase]): the buckets of the erased entries are the erased buckets.
+    - History independence: [Ops.step] is a function of the modelled state; what is not visible
+      in the text (identifiers, notes) provably does not influence the buckets; block numbers
+      are visible state of their own (set by resequence).  The implementation-side clause (same
+      operation on a freshly built equal object) is checked per step by the harness.
+    delete_shadow is owned by C04 (certificate there); here it is covered by correspondence and
+    by the reference prediction of the oracle. *)
+From V Require Import base.Prelude spec.AceSem spec.AclSem model.Cfg model.AceText model.AclText model.Shading
+  model.Ops proofs.DeleteShadowProofs proofs.PlatformProofs proofs.OpsProofs proofs.HistoryProofs.
+From Coq Require Import Permutation Sorting.Sorted.
+Local Open Scope N_scope.
+
+Theorem C17_neutral_history : forall ops a a',
+  neutral_run a ops = Some a' -> forall k, acl_decide a' k = acl_decide a k.
+Proof. exact neutral_history. Qed.
+
+Theorem C17_step_cert : forall a o a',
+  neutral o = true -> o_gby a = "" -> o_gby a' = "" -> step_cert a o a' = true ->
+  forall k, acl_decide a' k = acl_decide a k.
+Proof. exact step_cert_sound. Qed.
+
+Theorem C17_resequence : forall start step a a',
+  op_resequence start step a = Ok a' -> den_items a' = den_items a.
+Proof. exact resequence_items. Qed.
+
+Theorem C17_ungroup : forall a, den_items (op_ungroup a) = den_items a.
+Proof. exact ungroup_items. Qed.
+
+Theorem C17_reverse : forall a,
+  den_items (op_reverse a) = concat (rev (map (fun t => map leaf_item (top_leaves t)) (o_tops a))).
+Proof. exact reverse_items. Qed.
+
+Theorem C17_sort : forall a a',
+  op_sort a = Ok a' ->
+  Permutation (o_tops a') (o_tops a) /\ Sorted (fun x y => top_seq x <= top_seq y) (o_tops a').
+Proof. exact sort_spec. Qed.
+
+Theorem C17_pop : forall i a a',
+  op_pop i a = Ok a' -> o_tops a' = firstn i (o_tops a) ++ skipn (S i) (o_tops a).
+Proof. exact pop_items. Qed.
+
+Theorem C17_insert : forall i line a a',
+  op_insert i line a = Ok a' ->
+  exists t, parse_ace_text (o_cfg a) line = Ok t
+            /\ o_tops a' = firstn i (o_tops a) ++ [TLeaf (LAce 0 0 t)] ++ skipn i (o_tops a).
+Proof. exact insert_items. Qed.
+
+Theorem C17_group_erase : forall gby ls,
+  erase_buckets (lgroup_buckets gby ls) = lgroup_buckets gby (map erase ls).
+Proof. exact group_erase. Qed.
+
+(** grouping neither invents nor loses an entry (a repeated heading remark is merged) *)
+Theorem C17_group_sound : forall gby old ls y, In y (flat (regroup gby old ls)) -> In y ls.
+Proof. exact regroup_sound. Qed.
+Theorem C17_group_keeps : forall gby old ls y,
+  In y ls -> is_head gby y = false -> In y (flat (regroup gby old ls)).
+Proof. exact regroup_keeps. Qed.
+
+(** non-vacuity: a seven-step history of meaning-preserving operations on an IOS list with a
+    two-port entry passes every certificate, so the theorem applies to it *)
+Local Open Scope string_scope.
+Definition C17_demo : option (list string) :=
+  match init_acl (mkCfg Ios false false false 16%nat) "A"
+          ["remark r"; "10 permit tcp any host 10.0.0.1 eq www 443 log"; "20 deny udp any any range 5 6"; "deny ip any any"] with
+  | Ok a0 =>
+      match neutral_run a0 [OpPortNr true; OpPlatform Nxos; OpResequence 100 10; OpCopy; OpProtocolNr true;
+                            OpPlatform Ios; OpReparse] with
+      | Some a => Some (acl_lines a)
+      | None => None
+      end
+  | _ => None
+  end.
+Example C17_nonvacuous :
+  C17_demo = Some ["ip access-list extended A"; "100 remark r"; "110 permit tcp any host 10.0.0.1 eq 80 log";
+                   "120 permit tcp any host 10.0.0.1 eq 443 log"; "130 deny udp any any range 5 6"; "140 deny 0 any any"].
+Proof. vm_compute. reflexivity. Qed.
